@@ -21,7 +21,9 @@
 EXTENDS Tens, TLC
 
 CONSTANTS Orders,       \* tensor orders enumerated by the design run, e.g. {3, 4}
-          SoftOrders    \* orders for which the four penalty kinds are enumerated as well
+          SoftOrders,   \* orders for which the four penalty kinds are enumerated as well
+          WideOrders    \* orders for which two-keyword specifications range over ALL pairs of kinds
+                        \* (elsewhere over the pairs of CoreKinds; single keywords: always every kind)
 
 KindSeq == <<"non_negative", "l1_reg", "l2_reg", "l2_square_reg", "unimodality", "normalize",
              "simplex", "normalized_sparsity", "soft_sparsity", "smoothness", "monotonicity",
@@ -99,6 +101,8 @@ MapOK(n, items) ==
 
 \* ------------------------------------------------------------------ the enumerated domain
 KindsFor(n) == IF n \in SoftOrders THEN AllKinds ELSE HardKinds
+CoreKinds   == {"non_negative", "simplex", "monotonicity", "hard_sparsity"}   \* a boolean, a radius, an order, a count kind
+PairKinds(n) == IF n \in WideOrders THEN KindsFor(n) ELSE CoreKinds
 DomPar(k, m) == IF k \in BoolKinds THEN 1
                 ELSE IF k \in CountKinds THEN m + 2
                 ELSE m + 1                       \* radii 1,2,3,4 ; penalties 0.1 .. 0.4
@@ -256,7 +260,9 @@ ASSUME /\ Feasible("non_negative", 1, W(<<<<0, 2, 1>>>>))      /\ ~Feasible("non
 
 \* ------------------------------------------------------------------ design run
 (* One root state per (order, first keyword in every form / no keyword): its successors are the   *)
-(* specifications with that first keyword alone and with every second keyword of a later kind.    *)
+(* specifications with that first keyword alone and with every second keyword of a later kind      *)
+(* (PairKinds: all kinds for WideOrders, the four CoreKinds otherwise -- the mapping never looks   *)
+(* at WHICH kind a keyword is, so this only thins the quick tier; thorough is wide everywhere).    *)
 (* One root per first column of a two-column integer factor for the predicate theorems.           *)
 (* One "rundomain" state per order hands the decomposition-run domain to the harness.             *)
 VARIABLE cfg
@@ -276,9 +282,9 @@ Init == \/ cfg \in {[op |-> "root", n |-> n, first |-> <<it>>] : <<n, it>> \in U
                      outer |-> RunOuter, inner |-> RunInner, data |-> RunData] : n \in Orders}
 Next == \/ /\ cfg.op = "root"
            /\ \/ cfg' = SpecState(cfg.n, cfg.first)
-              \/ /\ cfg.first # <<>>
+              \/ /\ cfg.first # <<>> /\ cfg.first[1].kind \in PairKinds(cfg.n)
                  /\ cfg' \in {SpecState(cfg.n, cfg.first \o <<it>>) :
-                                it \in UNION {ItemsOf(cfg.n, k) : k \in {k \in KindsFor(cfg.n) : KindIdx(k) > KindIdx(cfg.first[1].kind)}}}
+                                it \in UNION {ItemsOf(cfg.n, k) : k \in {k \in PairKinds(cfg.n) : KindIdx(k) > KindIdx(cfg.first[1].kind)}}}
         \/ /\ cfg.op = "colroot"
            /\ cfg' \in {[op |-> "cols", x |-> cfg.x, y |-> y] : y \in Columns}
 Spec == Init /\ [][Next]_cfg
